@@ -94,8 +94,8 @@ def distance(lat1, lon1, lat2, lon2, H=0):
     """
 
     # phi = 90 - latitude
-    phi1 = np.radians(90 - lat1)
-    phi2 = np.radians(90 - lat2)
+    phi1 = np.radians(90.0 - lat1)
+    phi2 = np.radians(90.0 - lat2)
 
     # theta = longitude
     theta1 = np.radians(lon1)
